@@ -529,7 +529,7 @@ func TestVerifFree(t *testing.T) {
 
 func replayRunsFor(c Case) int {
 	if c.Engine == "copy" {
-		return replayRuns * 4
+		return 30
 	}
 	if c.Engine == "free" {
 		return replayRuns * 40
